@@ -251,7 +251,7 @@ def coq_toks(ep, full):
 def r_configs(tier):
     """(mps, ep, full token set, payload values, ignored-input settings)"""
     if tier == "quick":
-        return [(2, 1, False, [165], "[false; true]")]
+        return [(3, 2, False, [165], "[false]")]      # a size that is not a power of two
     return [(1, 3, True, [0, 165], "[false; true]"),
             (2, 1, False, [0, 165], "[false]"),
             (2, 3, True, [165], "[false; true]"),
@@ -260,7 +260,7 @@ def r_configs(tier):
 
 def targets(tier):
     if tier == "quick":
-        cfg = [(3, 2), (64, 15)]
+        cfg = [(5, 4), (64, 15)]
     else:
         cfg = [(1, 1), (2, 1), (3, 2), (5, 4), (8, 3), (64, 15), (100, 7), (512, 1), (1024, 2)]
     ts = [mk_target("sin", m, e, "corr") for m, e in cfg]
@@ -295,36 +295,60 @@ def obligations(targets, tier):
                             describe=desc + ": the C11 specification monitor (host model, exactly-once, packet size, ZLP, retry, "
                                             "NAK rules) over simulator traces of the real module driven by a scripted host with lost "
                                             "packets / lost ACKs"))
-        obs.append(tie.corr(f"corr_{t.name}", t, mstep=f"ix_mstep true true {mps}%nat {ep}", m0=f"ix_init {mps}%nat",
-                            norm=norm_expr(),
-                            describe=desc + " vs the FSM/double-buffer model on simulator traces, full-range payloads"))
+        if "--replay" in sys.argv:      # lets `./check C11 --replay` re-judge a recorded model-vs-implementation difference
+            obs.append(tie.cmon(f"corr_{t.name}", t,
+                                mon=f"(fun m i o => rld_mon ix_state (ix_mstep_n true true {mps}%nat {ep}) (ix_enc {mps}%nat) "
+                                    f"(ix_dec {mps}%nat) m i (normN o))", m0=f"(ix_enc {mps}%nat (ix_init {mps}%nat))",
+                                describe=desc + " vs the FSM/double-buffer model (lock step, tx.payload while tx.valid)"))
     return obs
 
 
 def correspondence(tier, rng, bdir, cov):
-    """Runtime oracle at the larger packet sizes: the typed specification monitor (InXfer.c11_bad_code) over
-    simulator traces of the real module (the N-packed monitor state used by tie.cmon is too slow there)."""
+    """Over simulator traces of the real module (every target): (1) at the larger packet sizes the typed specification
+    monitor InXfer.c11_bad_code (the N-packed monitor state used by tie.cmon is too slow there); (2) correspondence with
+    the hand model, every cycle, tx.payload compared while tx.valid (Machine.corr_codes).  A difference is reported with
+    the concrete input prefix and the simulator's outputs."""
     from harness import core
+    hdr = tie.HEADER + TIE_IMPORTS
     for name, (t, trs) in _TRACE_CACHE.items():
         mps, ep = t.params["mps"], t.params["ep"]
-        if mps <= SMALL:
-            continue
         outs = t.simulate(trs)
-        packed = [[(t.pack_in(c), t.pack_out(x)) for c, x in zip(tr, ou)] for tr, ou in zip(trs, outs)]
-        defs = ("Definition ios : list (list (N * N)) := [" +
-                ";\n ".join("[" + "; ".join(f"({i},{x})" for i, x in tr) + "]" for tr in packed) + "].\n")
-        hdr = tie.HEADER + TIE_IMPORTS
-        res = core.coq_eval(bdir, f"Spec_{name}", hdr, defs, [("codes", f"map (c11_bad_code {mps}%nat {ep}) ios")])
+        tin = [[t.pack_in(c) for c in tr] for tr in trs]
+        tout = [[t.pack_out(x) for x in ou] for ou in outs]
+        cyc = sum(len(x) for x in tin)
+        desc = f"USBStreamInEndpoint(endpoint_number={ep}, max_packet_size={mps})"
+        if mps > SMALL:
+            defs = ("Definition ios : list (list (N * N)) := [" +
+                    ";\n ".join("[" + "; ".join(f"({i},{x})" for i, x in zip(a, b)) + "]" for a, b in zip(tin, tout)) + "].\n")
+            res = core.coq_eval(bdir, f"Spec_{name}", hdr, defs, [("codes", f"map (c11_bad_code {mps}%nat {ep}) ios")])
+            codes = core.parse_nums(res["codes"]) if res["codes"].strip() != "[]" else []
+            cov["correspondence"].append(dict(obligation=f"spec_{name}", target=name, traces=len(tin), cycles=cyc,
+                                              describe=desc + ": C11 specification monitor (typed) over simulator traces"))
+            for k, c in enumerate(codes):
+                if c != 0:
+                    return dict(property=PID, obligation=f"spec_{name}", target=name,
+                                describe=desc + ": C11 specification monitor over a simulator trace of /repo",
+                                inputs=trs[k][:c], outputs=outs[k][:c], failing_cycle=c - 1, confirmed_on_pysim=True,
+                                how="specification monitor evaluated over a simulator trace of /repo")
+        defs = ("Definition tin : list (list N) := [" + ";\n ".join(core.nlist(x) for x in tin) + "].\n" +
+                "Definition tout : list (list N) := [" + ";\n ".join(core.nlist(x) for x in tout) + "].\n")
+        res = core.coq_eval(bdir, f"Corr_{name}", hdr, defs,
+                            [("codes", f"corr_codes (ix_mstep true true {mps}%nat {ep}) normN (ix_init {mps}%nat) tin tout")])
         codes = core.parse_nums(res["codes"]) if res["codes"].strip() != "[]" else []
-        cov["correspondence"].append(dict(obligation=f"spec_{name}", target=name, traces=len(packed),
-                                          cycles=sum(len(x) for x in packed),
-                                          describe="C11 specification monitor (typed) over simulator traces of the real module"))
+        cov["correspondence"].append(dict(obligation=f"corr_{name}", target=name, traces=len(tin), cycles=cyc,
+                                          describe=desc + " vs the FSM/double-buffer model on simulator traces, full-range payloads"))
         for k, c in enumerate(codes):
             if c != 0:
-                return dict(property=PID, obligation=f"spec_{name}", target=name,
-                            describe="C11 specification monitor over a simulator trace of /repo",
-                            inputs=trs[k][:c], outputs=outs[k][:c], failing_cycle=c - 1, confirmed_on_pysim=True,
-                            how="specification monitor evaluated over a simulator trace of /repo")
+                res2 = core.coq_eval(bdir, f"CorrD_{name}", hdr, f"Definition one : list N := {core.nlist(tin[k][:c])}.\n",
+                                     [("mo", f"run (ix_mstep true true {mps}%nat {ep}) (ix_init {mps}%nat) one")])
+                mo = core.parse_nums(res2["mo"])
+                return dict(property=PID, obligation=f"corr_{name}", target=name,
+                            describe=desc + ": the implementation's outputs differ from the specification-satisfying model "
+                                            "(tx.payload compared while tx.valid)",
+                            inputs=trs[k][:c], outputs=outs[k][:c],
+                            model_outputs=[core.nir2coq.unpack(t.layout.outputs, x) for x in mo],
+                            failing_cycle=c - 1, confirmed_on_pysim=True,
+                            how="model-vs-implementation difference on a simulator trace of /repo (concrete input prefix)")
     return None
 
 
@@ -348,11 +372,11 @@ def tie_theorem_names(targets, tier):
 
 
 ASSUMPTIONS = [
-    "DEFECT in the unchanged tree (confirmed on the simulator; findings/C11-stale-send-position.json/.diff): WAIT_TO_SEND addresses the "
-    "packet memory with send_position, which is only cleared during that state; an IN token answerable in the FIRST cycle of "
-    "WAIT_TO_SEND (packet completed one cycle earlier, or retry/next packet) after a packet whose length is not a multiple of the "
-    "memory's address range sends a wrong first byte (payload corrupted / retry differs).  The model and every tie use the repaired "
-    "behaviour (read address 0 in WAIT_TO_SEND); ./check C11 passes only with findings/C11-stale-send-position.diff applied",
+    "DEFECT found by this check, repaired in /repo by commit a514280 (findings/C11-stale-send-position.json/.diff): WAIT_TO_SEND "
+    "addressed the packet memory with send_position, which is only cleared during that state; an IN token answerable in the FIRST "
+    "cycle of WAIT_TO_SEND after a packet whose length is not a multiple of the memory's address range sent a wrong first byte.  "
+    "The model and every tie use the repaired behaviour (read address 0 in WAIT_TO_SEND); Properties/C11.v refutes the behaviour as "
+    "found (C11_unfixed_violates)",
     "host model (part of the specification c11_mon): a packet received intact (ghost input bit per cycle, carried on stream.first which "
     "the module ignores) is taken iff its PID equals the host's expected toggle, else discarded; either way the host ACKs, and the ACK "
     "may be lost.  Environment: an ACK strobe arrives only while the handshake of a completed packet is outstanding and the host "
@@ -361,7 +385,7 @@ ASSUMPTIONS = [
     "USBStreamInEndpoint",
     "flush is sampled only in WAIT_FOR_DATA and at an ACK (a flush pulse at another time has no effect); the specification does not "
     "require more: flush only adds packet boundaries",
-    "netlist = model lock-step ties (max_packet_size 2; thorough: 1, 2, 3) quantify over all traces, of any length, whose input word of "
+    "netlist = model lock-step ties (max_packet_size 3; thorough: 1, 2, 3) quantify over all traces, of any length, whose input word of "
     "each cycle lies in the alphabet of the model's FSM state of that cycle (InXfer.ix_alpha): every input the module reads in that "
     "state takes every combination (payload from a 1-3 value set, tokenizer.endpoint from {ep, ep xor 1}), inputs it ignores there are "
     "all-0 or all-1; tx.payload is compared while tx.valid is high.  Full-range payloads / endpoints / sizes up to 512 (1024): "
@@ -374,15 +398,17 @@ LEVEL_TEXT = ("Machine-checked proof. (1) For every max_packet_size >= 1, every 
               "(C11_in_endpoint_meets_spec): IN tokens are answered by NAK exactly when no packet is due, else by a ZLP or a data packet of "
               "at most max_packet_size bytes; a timed-out packet is repeated with identical PID and payload; every new packet carries the "
               "toggle the host expects; what the host takes is the next part of the stream, never straddles a `last` marker, and a "
-              "full-size packet ending a transfer is followed by a ZLP.  Proof: abstraction function from model states (plus three ghost "
+              "full-size packet ending a transfer is followed by a ZLP; a packet that is not a retry is full-size unless it ends the "
+              "transfer, is the owed ZLP or was queued by a flush (no premature short packet); stream.ready is high whenever fewer than "
+              "max_packet_size bytes without a `last` marker are pending.  Proof: abstraction function from model states (plus three ghost "
               "bits) to monitor states, one step lemma per FSM state, induction over the trace.  (2) Consequence "
               "C11_exactly_once_in_order: bytes taken by the host ++ bytes still pending = bytes handed over by the stream, with at most "
-              "2*max_packet_size pending.  (3) For max_packet_size 2 (thorough: 1, 2, 3) the netlist regenerated from /repo is proved "
+              "2*max_packet_size pending.  (3) For max_packet_size 3 (thorough: 1, 2, 3) the netlist regenerated from /repo is proved "
               "equal to the model on all traces over a state-dependent input alphabet (certified product reachability), giving "
               "C11_<cfg>: the netlist's decoded run satisfies the specification monitor.  (4) Not proved, checked on simulator traces of "
               "the real module driven by a scripted host (closed loop): model correspondence and the specification monitor at sizes "
-              "3..512 (thorough ..1024) with full-range payloads.  On the UNCHANGED tree the check reports a violation (see ASSUMPTIONS); "
-              "it passes with findings/C11-stale-send-position.diff.")
+              "5..64 (thorough 1..1024) with full-range payloads.  The defect this check found (see ASSUMPTIONS) is repaired in /repo (a514280); "
+              "the pre-repair behaviour is refuted in Properties/C11.v.")
 LEVEL_NOTE = ("Trusted: Coq kernel + vm_compute, Amaranth elaboration, nir2coq.py/Netlist.v (validated each run against pysim), the host model "
               "inside c11_mon.  The model theorems are about the REPAIRED behaviour (fix_addr = true); Properties/C11.v also shows that the "
               "behaviour as found (fix_addr = false) violates the specification (C11_unfixed_violates).  The netlist ties restrict data "
